@@ -3,7 +3,7 @@ when absent) plus the small hand-written programs under /verif/pbt/seeds."""
 import glob
 import os
 
-REPO = "/repo"
+REPO = os.environ.get("MAMBA_REPO", "/repo")
 SEEDS = os.path.join(os.path.dirname(__file__), "seeds")
 _cache = {}
 
